@@ -53,11 +53,13 @@ func hRange15(tag string, lo, hi int) InclusiveRange {
 // ContainsTime equals the documented meaning: minute-of-day in a [start,end) range,
 // weekday/month/year in an inclusive range, day of month in a range whose negative
 // bounds count from the month's end and which is clamped to the month; an absent
-// field matches everything.
+// field matches everything. The fields are those of the instant read in the
+// interval's location: none (UTC) or any fixed offset of whole minutes within +-14h
+// (zone rules with transitions, i.e. the tz database, are outside the claim).
 //
 //vf:quick unwind=12 decisions=400 paths=300000
 //vf:thorough unwind=12 decisions=600 paths=3000000
-//vf:expect reach=contained reach=not-contained
+//vf:expect reach=contained reach=not-contained reach=zoned
 func VerifC15_ContainsTime() {
 	t := vfCalendarTime("t")
 	var ti TimeInterval
@@ -109,12 +111,22 @@ func VerifC15_ContainsTime() {
 		}
 	}
 
+	// the interval's own location: absent (UTC) or any fixed offset of whole minutes
+	// within UTC-14:00..UTC+14:00; the fields are then read in that zone
+	tl := t
+	if vfBool("hasLocation") {
+		zone := time.FixedZone("zone", 60*(vfIntRange("zone.offsetMinutes", 0, 1680)-840))
+		ti.Location = &Location{zone}
+		tl = t.In(zone)
+		vfReach("zoned")
+	}
+
 	got := ti.ContainsTime(t)
 
 	// the documented meaning, branch-free
-	mod := t.Hour()*60 + t.Minute()
-	dim := daysInMonth(t)
-	day, month, year, wd := t.Day(), int(t.Month()), t.Year(), int(t.Weekday())
+	mod := tl.Hour()*60 + tl.Minute()
+	dim := daysInMonth(tl)
+	day, month, year, wd := tl.Day(), int(tl.Month()), tl.Year(), int(tl.Weekday())
 	want := true
 	if hasTimes {
 		any := false
